@@ -24,16 +24,31 @@ int main(int argc, char **argv) {
             std::basic_string<C> t = vm::widen<C>(tt), vj = vm::widen<C>(vt);
             if (vf::g_verbose) fprintf(stderr, "TRACE template=%s\nTRACE value=%s\n", tt.c_str(), vt.c_str());
             V               value = JSON::Parse(vj.data(), SizeT(vj.size()));
+            // one case in four (object roots) is rendered through a view whose members are pointers to the members of the
+            // parsed value (SetPointerToValue): a pointer member stands for the value it points to
+            V view;
+            if ((c & 3) == 2) {
+                if (value.IsObject()) {
+                    for (SizeT i = 0; i < value.Size(); ++i) {
+                        const V         *m = value.GetValue(i);
+                        const String<C> *k = value.GetKey(i);
+                        if (m != nullptr && k != nullptr) view[*k].SetPointerToValue(m);
+                    }
+                    vf::count("pointer_view_renders");
+                }
+                // (array roots are left alone: whether pointer *elements* count as objects for group= is not documented)
+            }
+            const V        &root = view.IsUndefined() ? value : view;
             vf::ExactBuf<C> b(t.data(), t.size());
             SS              o;
             if ((c & 3) == 1) {
                 // through a tag cache, rendered twice; the second output is the one compared
                 Array<Tags::TagBit> cache;
                 SS                  first;
-                Template::Render((const C *)b.p, SizeT(b.n), value, first, cache);
-                Template::Render((const C *)b.p, SizeT(b.n), value, o, cache);
+                Template::Render((const C *)b.p, SizeT(b.n), root, first, cache);
+                Template::Render((const C *)b.p, SizeT(b.n), root, o, cache);
             } else {
-                Template::Render((const C *)b.p, SizeT(b.n), value, o);
+                Template::Render((const C *)b.p, SizeT(b.n), root, o);
             }
             fprintf(out, "%" PRIu64 " ", c);
             if (o.Length() == 0) fputc('-', out);
